@@ -47,6 +47,10 @@ def items():
             for act in ACTS + ACTS2:
                 for sch in (None, "rs"):
                     out.append(["fk", cols, name, rc, sch, [list(a) for a in act]])
+    # a referenced schema written as a quoted name that contains a dot
+    out.append(["fk", ["a"], None, ["x"], '"r.s"', []])
+    out.append(["fk", ["b", "c"], "fk_n", ["x", "y"], '"r.s"', [["DELETE", "CASCADE"]]])
+    out.append(["iref", "b", "x", '"r.s"', []])
     for name in (None, "ck_n"):
         out.append(["ck", "d > 0", name])
     # inline forms
@@ -165,6 +169,11 @@ def gen_cases(tier):
                 cases.append({"items": [i], "pos": j})
     R = [i for i in I if not two_word(i) and (i[0] not in ("fk", "iref") or (i[0] == "fk" and i[5] in ([], [["DELETE", "CASCADE"]]) and i[4] is None)
                                                or (i[0] == "iref" and i[4] == [] and i[3] is None))]
+    # every ordered triple of UNIQUE clauses (the bookkeeping of unnamed / named / compound uniques interacts)
+    U = [i for i in I if i[0] == "uq"]
+    for a, b, c in itertools.permutations(U, 3):
+        if compatible(a, b) and compatible(a, c) and compatible(b, c):
+            cases.append({"items": [a, b, c], "pos": "end"})
     # two table-level items, the first one at every interior position (before the declaration of some of its columns)
     for a, b in itertools.permutations([i for i in R if not is_inline(i)], 2):
         if compatible(a, b):
